@@ -61,6 +61,14 @@ CLAIMED = {
    "Structural necessary conditions of 'exports parse back': a who-may-use rule on io.Writer values in package rag (only encoding/json and encoding/csv encoders or other rag functions held to the same rule), agreement of the column-name tables of the CSV header writer, the value reader and the standard-column set (including the metadata prefix), the map-order classification on the export code, a shape proof that ChunkCollection.Filter is a pure forward selection with one predicate call site and that every FilterBy*/Search delegates to it, a polynomial check that batch windows tile the input (step = batch size, window = chunks[i:min(i+size,len)], reported bounds = window bounds), one record per chunk with its own index, and receiver-write freedom of all Exporter methods.",
    "Trusted: go/ssa, VTA-based callee write summaries, the standard encoders themselves; field-by-field equality after re-parsing and the vector-database layouts are not decided.",
    "who-may-use/who-may-write effect rules + table agreement + polynomial window check + pure-filter shape proof", "DESIGN.md §4 C14"),
+ "C16": ("other",
+   "Structural necessary conditions of order and structure preservation in the DOCX/ODT readers: no function reassembles ordered inline content kind by kind from two or more child-content fields of one unmarshalled element; every loop over a row's cells that keeps a column cursor advances it on every path to the next cell (path enumeration over the loop body on the typed AST) and the DOCX fillers step by the cell's own span; list, list-item and run/inline text builders reach the loop over each child collection on every path to their return (SSA dominance); every text-carrying child collection of the structs the body is decoded into is read somewhere (declared-but-never-read = dropped content); the hand-written ordered decoders dispatch on every text-carrying inline element of the content model and on no deleted-text element.",
+   "Trusted: go/types, go/ssa dominance; the inline content-model table in rules/c16.go (ECMA-376 17.3, ODF 1.2 6.1). Not decided: interleaving of body-level paragraphs and tables, heading levels through style inheritance, row spans of vertical merges, header/footer leakage.",
+   "typed-AST sibling-field reassembly lint + per-loop path enumeration + SSA dominance + declared-field-read check + dispatch-table agreement", "DESIGN.md §4 C16"),
+ "C17": ("other",
+   "Structural necessary conditions of 'cells land at their addressed position': row/column role typing of the reference plumbing (ParseCellRef returns column-from-letters, row-from-digits-minus-one in that order; every consumer binds result 0 to a column position and result 1 to a row position; ParseRangeRef forwards the four coordinates unpermuted; CellRef adds the one back) by def-use over SSA; the grid dimensions are maxima over every cell of every row (full forward index in the dimension pass); the tab-separated rendering writes the delimiter for every column after the first whatever the cell's merge state.",
+   "Trusted: go/ssa. Not decided: the base-26 arithmetic itself, shared strings and rich text, merge expansion, rows without an r attribute, number formats and dates.",
+   "SSA def-use role typing (row vs column) + loop-shape and guard rules", "DESIGN.md §4 C17"),
  "C18": ("other",
    "Structural necessary conditions of declared order: the loops that build the sheet, slide and chapter lists are forward ranges over the declared lists (workbook sheets by relationship id, p:sldIdLst by relationship id, OPF spine by manifest idref), append inside that loop, are not followed by a sort and do not derive from the ZIP member list; the PPTX declared list wins whenever non-empty (no other condition between the lookup and its use); EPUB hrefs are decoded with url.PathUnescape and joined to the package directory; the page count is the length of the same list.",
    "Trusted: go/ssa; readability of declared parts and run-time path shapes are not decided.",
